@@ -15,9 +15,10 @@ import (
 )
 
 // C25: crash injection into flushable.SyncedPool and flaggedproducer.
-// A history enumerated by TLC (specs/kvp/FlushScen.tla) is run once without a crash and then once
-// for every k with the process stopped at its k-th durable operation (the operation is not
-// applied, nothing of the stopped process is used afterwards).  After each run a fresh
+// A history enumerated by TLC (specs/kvp/FlushScen.tla: path to an abstract state + one call) is run
+// once without a crash and then once for every durable operation k of its last call with the
+// process stopped at that operation (the operation is not applied, nothing of the stopped process
+// is used afterwards; the crash points of the earlier calls belong to the histories that end there).  After each run a fresh
 // pool/producer over fresh stores built from the surviving disk image calls Initialize over the
 // surviving database names.  Every run is written as one trace for SyncedPoolTrace.tla /
 // FlaggedTrace.tla, which decide whether the restart verdict is crash consistent.
@@ -35,6 +36,19 @@ type scenOp struct {
 type scenario struct {
 	Comp string   `json:"comp"`
 	Ops  []scenOp `json:"ops"`
+	Last int      `json:"last"` // 1-based index of the call whose durable operations are the crash points (0: all calls)
+	Cls  string   `json:"cls"`
+}
+
+// bigPad makes a value large enough (60 KiB) for three of them to exceed kvdb.IdealBatchSize twice over,
+// so that one Flushable.Flush writes several batches
+var bigPad = strings.Repeat("x", 60*1024)
+
+func encodeVal(v, big int) []byte {
+	if big != 0 && v == big {
+		return []byte(strconv.Itoa(v) + bigPad)
+	}
+	return []byte(strconv.Itoa(v))
 }
 
 type rec map[string]interface{}
@@ -51,7 +65,11 @@ type crashCtl struct {
 }
 
 func decodeVal(b []byte) int {
-	v, err := strconv.Atoi(string(b))
+	n := 0
+	for n < len(b) && b[n] >= '0' && b[n] <= '9' {
+		n++
+	}
+	v, err := strconv.Atoi(string(b[:n]))
 	if err != nil {
 		return -1000
 	}
@@ -93,7 +111,14 @@ func (c *crashCtl) Step(op DurableOp) {
 		c.emit(rec{"op": "data", "db": op.DB, "w": rec{string(op.Key): 0}})
 	case "batch":
 		w := rec{}
+		line := rec{"op": "data", "db": op.DB, "w": w}
 		for _, bw := range op.Writes {
+			if string(bw.Key) == string(c25FlushKey) {
+				// a flush mark inside a write batch: one atomic durable operation carrying data and mark
+				kind, id := decodeMark(bw.Val)
+				line["mark"] = []interface{}{kind, id}
+				continue
+			}
 			if bw.Val == nil {
 				w[string(bw.Key)] = 0
 			} else {
@@ -101,7 +126,7 @@ func (c *crashCtl) Step(op DurableOp) {
 			}
 		}
 		c.last = "data"
-		c.emit(rec{"op": "data", "db": op.DB, "w": w})
+		c.emit(line)
 	}
 }
 
@@ -176,7 +201,7 @@ func restartLine(comp string, disk *Disk, keys []string, dbs []string, k int, la
 
 // runHistory executes one history with the process stopped at the crashAt-th durable operation
 // (0: never); returns the number of durable operations that were performed.
-func runHistory(sc *scenario, scen, crashAt int, keys, dbs []string, emit func(rec)) (int, error) {
+func runHistory(sc *scenario, scen, crashAt int, keys, dbs []string, emit func(rec)) (done int, before int, err error) {
 	disk := NewDisk()
 	ctl := &crashCtl{crashAt: crashAt, emit: emit, last: "none"}
 	emit(rec{"op": "reset", "comp": sc.Comp, "scen": scen, "crash": crashAt})
@@ -203,7 +228,23 @@ func runHistory(sc *scenario, scen, crashAt int, keys, dbs []string, emit func(r
 		}
 		stores := map[string]kvdb.Store{}
 		for i, op := range sc.Ops {
+			if i+1 == sc.Last {
+				before = ctl.n
+			}
 			switch op.Op {
+			case "bput":
+				st := stores[op.DB]
+				if st == nil {
+					runErr = fmt.Errorf("bput on a database that is not open: %s", op.DB)
+					return
+				}
+				for _, key := range keys {
+					emit(rec{"op": "put", "db": op.DB, "k": key, "v": op.V})
+					if err := st.Put([]byte(key), encodeVal(op.V, op.V)); err != nil {
+						runErr = err
+						return
+					}
+				}
 			case "open":
 				emit(rec{"op": "open", "db": op.DB})
 				st, err := opener.OpenDB(op.DB)
@@ -276,21 +317,21 @@ func runHistory(sc *scenario, scen, crashAt int, keys, dbs []string, emit func(r
 		}
 	}()
 	if runErr != nil {
-		return ctl.n, runErr
+		return ctl.n, before, runErr
 	}
 	if crashAt > 0 && !ctl.dead {
-		return ctl.n, errors.New("the run performed fewer durable operations than the crash point")
+		return ctl.n, before, errors.New("the run performed fewer durable operations than the crash point")
 	}
 	line, err := restartLine(sc.Comp, disk, keys, dbs, crashAt, ctl.last)
 	if err != nil {
-		return ctl.n, err
+		return ctl.n, before, err
 	}
 	emit(line)
-	done := ctl.n
+	done = ctl.n
 	if ctl.dead {
 		done--
 	}
-	return done, nil
+	return done, before, nil
 }
 
 // CmdCrashRun: vh crashrun <scenarios.ndjson> <pool-trace.ndjson> <flagged-trace.ndjson>
@@ -318,7 +359,7 @@ func CmdCrashRun(args []string) int {
 		defer w.Flush()
 		outs[comp] = w
 	}
-	keys := []string{"k1", "k2"}
+	keys := []string{"k1", "k2", "k3"}
 	dbs := []string{"A", "B"}
 	stats := map[string]int{}
 	sc := bufio.NewScanner(in)
@@ -356,7 +397,7 @@ func CmdCrashRun(args []string) int {
 			}
 		}
 		// the run without a crash tells how many durable operations the history has
-		n, err := runHistory(&s, scen, 0, keys, dbs, emit)
+		n, before, err := runHistory(&s, scen, 0, keys, dbs, emit)
 		if err != nil {
 			fmt.Fprintf(os.Stderr, "scenario %d (%s): %v\n", scen, sc.Text(), err)
 			return 2
@@ -364,8 +405,17 @@ func CmdCrashRun(args []string) int {
 		stats[s.Comp+"_histories"]++
 		stats[s.Comp+"_runs"]++
 		stats[s.Comp+"_durable_ops"] += n
-		for k := 1; k <= n; k++ {
-			if _, err := runHistory(&s, scen, k, keys, dbs, emit); err != nil {
+		if n-before > 1 {
+			stats[s.Comp+"_calls_with_several_durable_ops"]++
+		}
+		for _, o := range s.Ops {
+			if o.Op == "bput" {
+				stats[s.Comp+"_histories_with_large_values"]++
+				break
+			}
+		}
+		for k := before + 1; k <= n; k++ {
+			if _, _, err := runHistory(&s, scen, k, keys, dbs, emit); err != nil {
 				fmt.Fprintf(os.Stderr, "scenario %d crash %d (%s): %v\n", scen, k, sc.Text(), err)
 				return 2
 			}
